@@ -231,6 +231,13 @@ def check(ctx: Ctx):
     n2 = empty.check_filtered_indices(ctx)
     n3 = empty.check_cdist(ctx)
     empty.check_optional_dim(ctx)
+    empty.check_slice_stop_index(ctx)
+    ctx.expect("BOUNDS", 4)
+    # the size filter runs on every located emulsion: its removal loop must not invalidate the indices it still has to visit
+    from ..rules import collections as col_
+
+    col_.check_safe_removal(ctx, "droplets.emulsions.Emulsion.remove_small", "radius", (ast.LtE,), "radius <= min_radius", param="min_radius")
+    ctx.expect("REMOVE", 1)
     # the enumeration of boundary cells in the periodic merge must stay inside every transverse axis (IndexError otherwise)
     from ..rules import locate
 
